@@ -549,7 +549,7 @@ func cmdVerify(args []string) {
 		if ok && !*all {
 			continue
 		}
-		fmt.Printf("%-11s %-70s paths=%d triv=%d %.2fs %s %s\n", r.Status, r.Name, r.Paths, r.Trivial, r.Seconds, r.Solver, r.Where)
+		fmt.Printf("%-11s %-70s paths=%d triv=%d %.2fs max=%.2fs %s %s\n", r.Status, r.Name, r.Paths, r.Trivial, r.Seconds, r.MaxPathS, r.Solver, r.Where)
 		if !ok {
 			fmt.Printf("            %s\n            %s\n", r.Src, r.Detail)
 			if *dump != "" {
